@@ -161,6 +161,10 @@ type SessionCallbacks interface {
 	SignalConnectionClose(DisconnectParams)
 }
 
+// closeWriteTimeout is how long a connection that is being closed may take to accept
+// what is still being written to it
+const closeWriteTimeout = time.Second
+
 // impl of the connection
 type impl struct {
 	SessionCallbacks
@@ -699,6 +703,11 @@ func (s *impl) onConnectionCloseStage2(status error) {
 	s.onStop.Do(func() {
 		// gracefully shutdown receiver by setting some small ReadDeadline
 		_ = s.conn.SetReadDeadline(time.Now().Add(time.Microsecond))
+
+		// a peer that has stopped reading keeps the writer blocked in its Write: without a limit
+		// tx.stop() below (and the DISCONNECT after it) would wait for that peer for ever, and with
+		// it a take-over of the client id, the keep-alive expiry, the server shutdown
+		_ = s.conn.SetWriteDeadline(time.Now().Add(closeWriteTimeout))
 
 		s.rx.shutdown()
 
